@@ -2,7 +2,31 @@
 
 GO_TRUST = ["Go toolchain/runtime semantics as exercised by the harness"]
 
+NETC = "pkg/netceptor"
+
 PROPS = {
+    "C02": dict(
+        lean_props="Receptor.Props.C02",
+        engines=[dict(engine="wire", pkg=NETC, test="TestVerifWire", n_quick=300, n_thorough=3000),
+                 dict(engine="framer", pkg="pkg/framer", test="TestVerifFramer", n_quick=300, n_thorough=3000),
+                 dict(engine="pkt", pkg=NETC, test="TestVerifPkt", n_quick=250, n_thorough=2000)],
+        corr_ops={"wire": ["enc", "dec"], "framer": ["frame", "ops"], "pkt": ["handle", "walk"]},
+        facts=["wire_min_len", "wire_from_off", "wire_to_off", "wire_fsvc_off", "wire_tsvc_off", "wire_data_off",
+               "wire_ttl_idx", "wire_svc_len", "wire_enc_header", "wire_enc_order", "wire_hash_endian",
+               "frame_len_bytes", "frame_endian", "frame_get", "dispatch_key"],
+        trusted=["highwayhash: injective on the names in play (64-bit collisions assumed away)",
+                 "Go channels/maps as used by handleMessageData (registry lookup, channel send)",
+                 "the MTU is advertised, not enforced by the code: payload <= MTU is the generator's bound"],
+        assumptions=["service names of at most 8 bytes not ending in NUL", "no name-hash collision"],
+    ),
+    "C10": dict(
+        lean_props="Receptor.Props.C10",
+        engines=[dict(engine="pkt", pkg=NETC, test="TestVerifPkt", n_quick=400, n_thorough=3000)],
+        corr_ops={"pkt": ["handle", "walk"]},
+        facts=["fwd_expire_test", "fwd_decrement", "fwd_notice_guard", "fwd_order", "fwd_sendmessage_budget"],
+        trusted=["Ping/Traceroute client code (interprets notices) is exercised by the mesh engine, not modelled line by line"],
+        assumptions=["hop budget is a byte (0..255)"],
+    ),
     "C20": dict(
         lean_props="Receptor.Props.C20",
         engines=[dict(engine="der", pkg="pkg/utils", test="TestVerifDER", n_quick=400, n_thorough=4000)],
